@@ -19,7 +19,17 @@ KINDS = [("override_", "Override"), ("content", "Content"), ("room", "Room"), ("
 def run(ctx):
     fx = ctx.facts("A")
     w = W.World(fx, ["ruma_common"])
-    dex = D.Dex(w.lookup, adt_discr=w.adt_discr, unroll=1, inline=lambda n: "{closure" in n, ctors=w.ctors)
+    def helper(n):
+        # closures, and private free functions of the push modules other than the ones the rules name
+        if "{closure" in n:
+            return True
+        for mod in (PU + "condition::", PU + "iter::", PU):
+            if n.startswith(mod):
+                rest = n[len(mod):]
+                if "::" not in rest and "<" not in rest:
+                    return rest not in ("check_event_match", "insert_and_move_rule")
+        return False
+    dex = D.Dex(w.lookup, adt_discr=w.adt_discr, unroll=1, inline=helper, ctors=w.ctors)
 
     ctx.rule("C12.order", "RulesetIter / RulesetIntoIter::next: override, content, room, sender, underride; variant matches field; IntoIterator wires same-named fields")
     for it, wrap in (("RulesetIter<'a>", "AnyPushRuleRef"), ("RulesetIntoIter", "AnyPushRule")):
@@ -51,18 +61,26 @@ def run(ctx):
     ctx.rule("C12.match", "get_match: own event -> None, else the first rule of iter() whose applies() holds; get_actions = its actions or empty")
     f = w.fn(PU + "Ruleset::get_match")
     ps = dex.paths(f, [D.sym("self"), D.sym("event"), D.sym("context")])
+    # `iter().find(|r| r.applies(..))` and `for r in iter() { if r.applies(..) { return Some(r) } } None` unroll to the same paths
     own = [p for p in ps if any(a[0] == "eq" and t and "context.user_id" in D.show_atom(a) for a, t in p.conds)]
     other = [p for p in ps if p not in own and p.kind == "ret"]
-    good = bool(own) and all(D.show(p.ret) == "Option::None" for p in own) and bool(other) and \
-        all(D.show(p.ret).startswith("Iterator::find(Ruleset::iter(self), closure[") for p in other)
-    ctx.check(good, "C12.match", "C12.match:get_match", w.where(f), bad_msg=f"{[D.show(p.ret)[:100] for p in ps]}")
-    clo = [fn for fn in w.all_fns() if fn["path"].startswith(PU + "Ruleset::get_match::{closure") and "body" in fn]
-    okc = False
-    for c in clo:
-        cps = dex.paths(c, [D.sym("env"), D.sym("rule")])
-        if any("AnyPushRuleRef::applies(rule, " in D.show(p.ret) for p in cps):
-            okc = True
-    ctx.check(okc, "C12.match", "C12.match:find-predicate", w.where(f), bad_msg="find predicate is not rule.applies(event, context)")
+    good = bool(own) and all(D.show(p.ret) == "Option::None" for p in own) and bool(other)
+    okc = bool(other)
+    NEXT = "Iterator::next(IntoIterator::into_iter(Ruleset::iter(self)))"
+    for p in other:
+        conds = [(D.show_atom(a), t) for a, t in p.conds]
+        nexts = [(a, t) for a, t in conds if a.startswith(NEXT) and " is " in a]
+        appl = [(a, t) for a, t in conds if a.startswith("AnyPushRuleRef::applies(")]
+        elems = [a[:-len(" is Some")] + ".Some.0" for a, t in nexts if a.endswith(" is Some") and t]
+        r = D.show(p.ret)
+        # every applies() is on the element just produced, with (flattened event, context); the first true one is returned
+        okc = okc and len(appl) == len(elems) and all(a.startswith(f"AnyPushRuleRef::applies({e}, FlattenedJson::from_raw(event), context)") for (a, t), e in zip(appl, elems))
+        if r == "Option::None":
+            good = good and all(not t for a, t in appl) and bool(nexts) and nexts[-1][0].endswith(" is None")
+        else:
+            good = good and bool(appl) and appl[-1][1] is True and all(not t for a, t in appl[:-1]) and r == f"Option::Some({elems[-1]})"
+    ctx.check(good, "C12.match", "C12.match:get_match", w.where(f), bad_msg=f"{[D.show(p.ret)[:100] for p in ps]}"[:600])
+    ctx.check(okc, "C12.match", "C12.match:find-predicate", w.where(f), bad_msg="the selection predicate is not rule.applies(event, context) on each rule in turn")
     f = w.fn(PU + "Ruleset::get_actions")
     ps = dex.paths(f, [D.sym("self"), D.sym("event"), D.sym("context")])
     rets = {U.true_variants(p).get("Ruleset::get_match(self, event, context)"): D.show(p.ret) for p in ps}
@@ -119,7 +137,7 @@ def run(ctx):
     ctx.rule("C12.conditions", "PushCondition::applies: own event -> false; EventMatch -> check_event_match; ContainsDisplayName -> word match of content.body against the display name; "
                                "RoomMemberCount -> is.contains(member_count); SenderNotificationPermission see C20; EventPropertyIs/Contains -> exact value / array contains; _Custom -> false")
     f = w.fn(PU + "condition::PushCondition::applies")
-    dexp = D.Dex(w.lookup, adt_discr=w.adt_discr, unroll=1, inline=lambda n: "{closure" in n, max_paths=100000, ctors=w.ctors)
+    dexp = D.Dex(w.lookup, adt_discr=w.adt_discr, unroll=1, inline=helper, max_paths=100000, ctors=w.ctors)
     ps = dexp.paths(f, [D.sym("self"), D.sym("event"), D.sym("ctx")])
     by = {}
     for p in ps:
